@@ -7,6 +7,7 @@ import (
 	"context"
 	"errors"
 	"fmt"
+	"runtime"
 	"strings"
 	"sync"
 	"testing"
@@ -333,23 +334,25 @@ func TestC20_Seq(t *testing.T) { seqProp.Check(t) }
 
 type ConcScript struct {
 	Max       int   `json:"max"`
-	Streams   int   `json:"streams"` // appender goroutines (one per stream), spread over 2 sessions
-	Appends   int   `json:"appends"` // per appender
-	Sizes     []int `json:"sizes"`   // cycled payload sizes
-	Readers   int   `json:"readers"` // reader goroutines per stream
-	Limits    []int `json:"limits"`  // SetMaxBytes values applied by a limiter goroutine
-	CloseSess bool  `json:"close"`   // a goroutine closes session 1 midway (its appenders keep appending: stream restarts)
+	Streams   int   `json:"streams"`          // appender goroutines (one per stream), spread over 2 sessions
+	Appends   int   `json:"appends"`          // per appender
+	Sizes     []int `json:"sizes"`            // cycled payload sizes
+	Readers   int   `json:"readers"`          // reader goroutines per stream
+	Limits    []int `json:"limits"`           // SetMaxBytes values applied by a limiter goroutine
+	CloseSess bool  `json:"close"`            // a goroutine closes session 1 midway (its appenders keep appending: stream restarts)
+	Closes    int   `json:"closes,omitempty"` // how many more times session 1 is closed while the others go on
 }
 
 func genConc(rt *rapid.T) ConcScript {
 	return ConcScript{
 		Max:       rapid.IntRange(1, 200).Draw(rt, "max"),
-		Streams:   rapid.IntRange(1, 4).Draw(rt, "streams"),
+		Streams:   rapid.IntRange(1, 8).Draw(rt, "streams"),
 		Appends:   rapid.IntRange(1, 40).Draw(rt, "appends"),
 		Sizes:     rapid.SliceOfN(rapid.IntRange(0, 40), 1, 5).Draw(rt, "sizes"),
 		Readers:   rapid.IntRange(1, 3).Draw(rt, "readers"),
 		Limits:    rapid.SliceOfN(rapid.IntRange(1, 300), 0, 6).Draw(rt, "limits"),
 		CloseSess: rapid.Bool().Draw(rt, "close"),
+		Closes:    rapid.SampledFrom([]int{0, 0, 3, 10, 30}).Draw(rt, "closes"),
 	}
 }
 
@@ -447,8 +450,11 @@ func runConc(s ConcScript) (res vt.Result) {
 		wg.Add(1)
 		go func() {
 			defer wg.Done()
-			for _, l := range s.Limits {
-				store.SetMaxBytes(l)
+			for rep := 0; rep < 1+s.Closes; rep++ {
+				for _, l := range s.Limits {
+					store.SetMaxBytes(l)
+				}
+				runtime.Gosched()
 			}
 		}()
 	}
@@ -456,7 +462,10 @@ func runConc(s ConcScript) (res vt.Result) {
 		wg.Add(1)
 		go func() {
 			defer wg.Done()
-			store.SessionClosed(ctx, sid(1))
+			for rep := 0; rep < 1+s.Closes; rep++ {
+				store.SessionClosed(ctx, sid(1))
+				runtime.Gosched()
+			}
 		}()
 	}
 	wg.Wait()
